@@ -1,16 +1,54 @@
-"""Collects the per-property driver configuration from config/CXX.py (one file per property, each
-defining CONFIG): which test units run, with how many cases per tier, and the evidence/manifest texts."""
+"""Collects the per-property driver configuration from config/CNN.py (one file per property, each
+defining CONFIG): which test units run, with how many cases per tier, and the evidence/manifest texts.
+Configs are loaded lazily, so that a broken config file of one property cannot break another property's check."""
 import glob
 import importlib
 import os
+import sys
 
-PROPS = {}
 # property id -> reason; properties that are deliberately not claimed
 NOT_APPLICABLE = {}
 # commits in /repo that add build-tag guarded hooks (none are needed)
 HOOK_COMMITS = []
 
 _here = os.path.dirname(os.path.abspath(__file__))
-for _f in sorted(glob.glob(os.path.join(_here, "config", "C[0-9]*.py"))):
-    _id = os.path.basename(_f)[:-3]
-    PROPS[_id] = importlib.import_module("config." + _id).CONFIG
+
+
+class _Props(dict):
+    def __init__(self):
+        super().__init__()
+        self._ids = sorted(os.path.basename(f)[:-3] for f in glob.glob(os.path.join(_here, "config", "C[0-9]*.py")))
+
+    def _load(self, pid):
+        if not dict.__contains__(self, pid):
+            dict.__setitem__(self, pid, importlib.import_module("config." + pid).CONFIG)
+
+    def __contains__(self, pid):
+        return pid in self._ids
+
+    def __getitem__(self, pid):
+        if pid not in self._ids:
+            raise KeyError(pid)
+        self._load(pid)
+        return dict.__getitem__(self, pid)
+
+    def __iter__(self):
+        return iter(self._ids)
+
+    def keys(self):
+        return list(self._ids)
+
+    def items(self):
+        out = []
+        for pid in self._ids:
+            try:
+                out.append((pid, self[pid]))
+            except Exception as e:  # noqa: BLE001 - report and go on with the other properties
+                print("CONFIG ERROR in config/%s.py: %r" % (pid, e), file=sys.stderr)
+        return out
+
+    def __len__(self):
+        return len(self._ids)
+
+
+PROPS = _Props()
